@@ -19,7 +19,15 @@ RewriteVerdict(e) ==
   ELSE IF ~r.ok /\ e.occ # <<>> /\ e.expect_ok THEN <<"skip:layout-not-well-formed", r.missing>>
   ELSE IF ~e.ok THEN (IF r.ok THEN <<"rewrite:refused-although-every-pattern-matches", 0>>
                        ELSE IF e.new # e.old THEN <<"rewrite:failed-run-changed-file", 0>> ELSE Good)
-  ELSE LET c == RewriteClause(e.old, e.new, e.pats, e.v) IN IF c = OK THEN Good ELSE <<"rewrite:" \o c, IF r.ok THEN r.text ELSE r.missing>>
+  ELSE LET c == RewriteClause(e.old, e.new, e.pats, e.v)
+           sep == LineSep(e.old) nl == SplitBy(e.new, sep) IN
+       IF c = OK THEN Good
+       \* a rewrite that changed text outside the spans is C04's business; asked under C03 (e.prop), the same file is also looked at with C03's eyes:
+       \* does every line with kept occurrences show, for each of their patterns, the new version where that pattern is found
+       ELSE IF "prop" \in DOMAIN e /\ e.prop = "C03" /\ r.ok /\ c \in {"c04:text-outside-span-changed", "c04:unmatched-line-changed"} /\ Len(nl) = Len(SplitBy(e.old, sep))
+               /\ \E i \in 1..Len(nl) : ~ShowsNew(nl[i], KeptOfLine(r.kept, i), e.pats, r.texts)
+            THEN <<"rewrite:c03:occurrence-does-not-show-the-new-version", r.text>>
+       ELSE <<"rewrite:" \o c, IF r.ok THEN r.text ELSE r.missing>>
 
 \*  e.old : file text    e.hunks : the printed hunks of this file    e.real : file text after the real run
 DiffVerdict(e) ==
